@@ -547,7 +547,7 @@ def demoAla : LBlock :=
   { name := "ALA", ff := some "aa", nrexcl := some 3,
     nodes := [("N", [("atomname", .str "N"), ("resname", .str "ALA"), ("resid", .int 1)]),
               ("CA", [("atomname", .str "CA"), ("resname", .str "ALA"), ("resid", .int 1)])],
-    edges := [("N", "CA")] }
+    edges := [("N", "CA", [])] }
 
 def demoAlaCG : LBlock :=
   { name := "ALA", ff := some "cg", nrexcl := some 1,
